@@ -23,6 +23,8 @@ def random_config(r, op, n_choices, N_choices, allow_outliers=True):
         outlier_prob=(r.choice([0.0, 0.0, 0.01, 0.3, round(r.uniform(0.001, 0.9), 3)]) if allow_outliers else 0.0),
     )
     c["lib_outlier_proposal"] = r.choice([0.1, 0.1, 0.5, round(r.uniform(0.01, 0.9), 3)])
+    if c["outlier_prob"] > 0 and c["style"] != "flat" and r.random() < 0.35:
+        c["hetero"] = 1  # per-point outlier priors of different cluster sizes, as pre-clustered input gives
     if op == "sweep":
         c["subtree_prob"] = 0.0
         c["n_dp"] = r.choice([1, 1, 2])
